@@ -1,6 +1,6 @@
 """C13 — Sparse operators, projections and integrals are exact L2 quantities."""
 
-from .. import gridfun, rules, shapesets as S, sparse, spaces
+from .. import gridfun, misc_guards, rules, shapesets as S, sparse, spaces
 from ..alg import V
 
 LEVEL = "other"
@@ -25,6 +25,7 @@ def run(ctx):
     sparse.kernels(ctx)
     sparse.evaluators(ctx)
     sparse.assembler(ctx)
+    misc_guards.sparse_grid_guard(ctx)
     gridfun.integrate_kernel(ctx)
     gridfun.project_vectorized(ctx)
     gridfun.forwarding(ctx)
